@@ -26,6 +26,19 @@ type Term struct {
 	// Strip, when set, means "the string with every (leftmost, non-overlapping)
 	// match of this pattern removed" (ReplaceAllString(term, "")).
 	Strip *RegexConst
+	// Unesc: html.UnescapeString applied. Not a letter map: a term with Unesc
+	// is treated as a string variable of its own (languages are over the
+	// decoded string).
+	Unesc bool
+}
+
+// Key identifies the string variable a term's languages are about.
+func (t Term) Key() int {
+	k := t.Param
+	if t.Unesc {
+		k += 1000
+	}
+	return k
 }
 
 type LAtom struct {
@@ -51,6 +64,11 @@ func fFalse() *Form         { return &Form{Op: "false"} }
 func fNot(f *Form) *Form    { return &Form{Op: "not", Sub: []*Form{f}} }
 func fAnd(fs ...*Form) *Form { return &Form{Op: "and", Sub: fs} }
 func fOr(fs ...*Form) *Form  { return &Form{Op: "or", Sub: fs} }
+// fOver marks a sub-formula that over-approximates the condition it stands
+// for: it may be used as is in positive positions only; under a negation it is
+// replaced by true.
+func fOver(f *Form) *Form { return &Form{Op: "over", Sub: []*Form{f}} }
+
 func fUnknown(why string) *Form {
 	return &Form{Op: "unknown", Why: why}
 }
@@ -65,6 +83,8 @@ func (f *Form) String() string {
 		return f.Atom.Desc
 	case "not":
 		return "¬" + f.Sub[0].String()
+	case "over":
+		return "⌈" + f.Sub[0].String() + "⌉"
 	}
 	var ss []string
 	for _, s := range f.Sub {
@@ -108,6 +128,7 @@ type Summarizer struct {
 	// exits whose guards must be pairwise disjoint for exactness
 	exitGroups [][]*Form
 	depth      int
+	regexCache map[*ssa.Global]*RegexConst
 }
 
 func NewSummarizer(p *Program, regexes map[string]*RegexConst) *Summarizer {
@@ -141,6 +162,39 @@ func (s *Summarizer) termOf(v ssa.Value, env termEnv) (Term, bool) {
 				continue
 			}
 			return Term{}, false
+		case *ssa.Extract:
+			// result #k of a repository function whose non-constant returns all yield the same term
+			if call, ok := x.Tuple.(*ssa.Call); ok {
+				if f := staticCallee(call.Common()); f != nil && f.Blocks != nil && f.Pkg != nil && strings.HasPrefix(f.Pkg.Pkg.Path(), modulePath) {
+					env2 := termEnv{}
+					for i, p := range f.Params {
+						if i < len(call.Common().Args) {
+							if t, ok := s.termOf(call.Common().Args[i], env); ok {
+								env2[p] = t
+							}
+						}
+					}
+					var res *Term
+					for _, ret := range Returns(f) {
+						if x.Index >= len(ret.Results) {
+							return Term{}, false
+						}
+						rv := ret.Results[x.Index]
+						if k, ok := constString(rv); ok && k == "" {
+							continue // error paths
+						}
+						t, ok := s.termOf(rv, env2)
+						if !ok || (res != nil && *res != t) {
+							return Term{}, false
+						}
+						res = &t
+					}
+					if res != nil {
+						return *res, true
+					}
+				}
+			}
+			return Term{}, false
 		case *ssa.Call:
 			if c := x.Common(); !c.IsInvoke() {
 				if f, ok := c.Value.(*ssa.Function); ok && fnName(f) == "strings.ToLower" && len(c.Args) == 1 {
@@ -150,6 +204,20 @@ func (s *Summarizer) termOf(v ssa.Value, env termEnv) (Term, bool) {
 					}
 					t.Lower = true
 					return t, ok
+				}
+				if f, ok := c.Value.(*ssa.Function); ok && fnName(f) == "html.UnescapeString" && len(c.Args) == 1 {
+					t, ok := s.termOf(c.Args[0], env)
+					if !ok || t.Lower || t.Strip != nil || t.Unesc {
+						return Term{}, false
+					}
+					t.Unesc = true
+					return t, true
+				}
+				if f, ok := c.Value.(*ssa.Function); ok && fnName(f) == pkgUtil+".Stringify" && len(c.Args) == 1 {
+					// Stringify(args...) of the variadic parameter: the stringified input is the term
+					if t, ok := env[c.Args[0]]; ok {
+						return t, true
+					}
 				}
 				if f, ok := c.Value.(*ssa.Function); ok && fnName(f) == "(*regexp.Regexp).ReplaceAllString" && len(c.Args) == 3 {
 					rc := s.regexOf(c.Args[0])
@@ -261,6 +329,13 @@ func (s *Summarizer) regexOf(v ssa.Value) *RegexConst {
 	if !ok {
 		return nil
 	}
+	if rc, ok := s.regexCache[g]; ok {
+		return rc
+	}
+	if s.regexCache == nil {
+		s.regexCache = map[*ssa.Global]*RegexConst{}
+	}
+	s.regexCache[g] = nil
 	// the global must never be reassigned: only its package initialiser stores to it
 	for _, f := range s.prog.SrcFuncs() {
 		if f.Synthetic != "" && f.Name() == "init" {
@@ -274,7 +349,8 @@ func (s *Summarizer) regexOf(v ssa.Value) *RegexConst {
 			}
 		}
 	}
-	return s.regexes[g.Pkg.Pkg.Name()+"."+g.Name()]
+	s.regexCache[g] = s.regexes[g.Pkg.Pkg.Name()+"."+g.Name()]
+	return s.regexCache[g]
 }
 
 func staticCallee(c *ssa.CallCommon) *ssa.Function {
@@ -397,6 +473,9 @@ func termStr(t Term) string {
 	if t.Strip != nil {
 		s = "strip(" + s + "," + t.Strip.Name + ")"
 	}
+	if t.Unesc {
+		s = "unescape(" + s + ")"
+	}
 	if t.Lower {
 		s = "lower(" + s + ")"
 	}
@@ -489,6 +568,20 @@ func (s *Summarizer) binopForm(x *ssa.BinOp, env termEnv) *Form {
 		if i == 1 {
 			a, b = b, a
 		}
+		// URLSanitized(t).String() == t  ⇔  the URL guard accepts t, or t is the innocuous URL itself
+		if sc, ok := isCallTo(a, "("+modulePath+".URL).String"); ok {
+			if uc, ok := isCallTo(sc.Common().Args[0], modulePath+".URLSanitized"); ok {
+				t1, ok1 := s.termOf(uc.Common().Args[0], env)
+				t2, ok2 := s.termOf(b, env)
+				if ok1 && ok2 && t1 == t2 {
+					if g := urlGuardFunc(s.prog); g != nil {
+						env2 := termEnv{g.Params[0]: t1}
+						return wrap(fOr(s.FuncForm(g, env2), atom(&LAtom{Kind: "eq", Str: specInnocuousURL, Term: t1, Desc: fmt.Sprintf("%s==%q", termStr(t1), specInnocuousURL)})))
+					}
+				}
+				return fUnknown("URLSanitized round-trip comparison on unresolved terms")
+			}
+		}
 		// bool == const
 		if cv, ok := constOf(b); ok && cv != nil && cv.Kind() == constant.Bool {
 			f := s.ValueForm(a, env)
@@ -496,6 +589,32 @@ func (s *Summarizer) binopForm(x *ssa.BinOp, env termEnv) *Form {
 				f = fNot(f)
 			}
 			return wrap(f)
+		}
+		// f(args) == nil where f is a repository function returning an error
+		// (directly, or result #k of a multi-result function)
+		if c, ok := b.(*ssa.Const); ok && c.Value == nil {
+			var call *ssa.Call
+			idx := 0
+			if cl, ok := a.(*ssa.Call); ok {
+				call = cl
+			} else if ex, ok := a.(*ssa.Extract); ok {
+				if cl, ok := ex.Tuple.(*ssa.Call); ok {
+					call, idx = cl, ex.Index
+				}
+			}
+			if call != nil {
+				if f := staticCallee(call.Common()); f != nil && f.Blocks != nil && f.Pkg != nil && strings.HasPrefix(f.Pkg.Pkg.Path(), modulePath) && isErrorType(a.Type()) {
+					env2 := termEnv{}
+					for i, p := range f.Params {
+						if i < len(call.Common().Args) {
+							if t, ok := s.termOf(call.Common().Args[i], env); ok {
+								env2[p] = t
+							}
+						}
+					}
+					return wrap(s.NilResultForm(f, idx, env2))
+				}
+			}
 		}
 		// localVar == nil (an error variable kept in memory): propositional atom
 		if c, ok := b.(*ssa.Const); ok && c.Value == nil {
@@ -705,6 +824,68 @@ func (s *Summarizer) FuncForm(f *ssa.Function, env termEnv) *Form {
 		s.Inexact = append(s.Inexact, fnName(f)+" contains a loop")
 	}
 	return fOr(alts...)
+}
+
+// urlGuardFunc finds the boolean function whose result decides whether
+// URLSanitized keeps its input (the function C11 summarises).
+func urlGuardFunc(p *Program) *ssa.Function {
+	fn := p.Func("", "URLSanitized")
+	if fn == nil {
+		return nil
+	}
+	for _, b := range fn.Blocks {
+		if iff, ok := b.Instrs[len(b.Instrs)-1].(*ssa.If); ok {
+			if c, ok := iff.Cond.(*ssa.Call); ok {
+				if f := staticCallee(c.Common()); f != nil && f.Pkg == fn.Pkg && len(c.Common().Args) == 1 && c.Common().Args[0] == ssa.Value(fn.Params[0]) {
+					return f
+				}
+			}
+		}
+	}
+	return nil
+}
+
+func isErrorType(t types.Type) bool {
+	n, ok := t.(*types.Named)
+	return ok && n.Obj().Pkg() == nil && n.Obj().Name() == "error"
+}
+
+// NilResultForm over-approximates the inputs on which result #idx (an error)
+// of f is nil: the disjunction, over the returns whose result may be nil, of
+// their path conditions.
+func (s *Summarizer) NilResultForm(f *ssa.Function, idx int, env termEnv) *Form {
+	s.depth++
+	defer func() { s.depth-- }()
+	if s.depth > 12 {
+		return fOver(fTrue())
+	}
+	var alts []*Form
+	for _, ret := range Returns(f) {
+		v := ret.Results[idx]
+		if c, ok := isCallTo(v, "fmt.Errorf"); ok && c != nil {
+			continue // non-nil
+		}
+		if c, ok := isCallTo(v, "errors.New"); ok && c != nil {
+			continue
+		}
+		// returned under "v != nil"
+		nonNil := false
+		for _, g := range GuardsOf(ret.Block()) {
+			if bo, ok := g.Cond.(*ssa.BinOp); ok && bo.X == v {
+				if k, ok := bo.Y.(*ssa.Const); ok && k.Value == nil && ((bo.Op == token.NEQ) == g.Pol) {
+					nonNil = true
+				}
+			}
+		}
+		if nonNil {
+			continue
+		}
+		alts = append(alts, s.blockCond(ret.Block(), env, fnName(f)+" nil-result return"))
+	}
+	if len(alts) == 0 {
+		return fOver(fFalse())
+	}
+	return fOver(fOr(alts...))
 }
 
 func hasLoop(f *ssa.Function) bool {
@@ -987,6 +1168,11 @@ func (l *Lang) Eval(f *Form) (*relang.DFA, []string, error) {
 			return relang.EmptyLang(l.A), nil
 		case "not":
 			return plain(f.Sub[0], !pos)
+		case "over":
+			if !pos {
+				return l.All(), nil
+			}
+			return plain(f.Sub[0], true)
 		case "atom":
 			d, err := atomLang(f.Atom)
 			if err != nil {
@@ -1043,6 +1229,11 @@ func (l *Lang) Eval(f *Form) (*relang.DFA, []string, error) {
 			return nil, fmt.Errorf("unknown atom: %s", f.Why)
 		case "not":
 			return ev(f.Sub[0], !pos)
+		case "over":
+			if !pos {
+				return l.All(), nil
+			}
+			return ev(f.Sub[0], true)
 		case "and", "or":
 			isAnd := (f.Op == "and") == pos // De Morgan
 			// group children that are uniform in the same term
